@@ -147,3 +147,20 @@ theorem bridge_bodies (d : Data) (t : Str) (h : renderNoop d = some t) :
   exact ⟨m, hm, rfl, rfl, rfl, rfl⟩
 
 end Moq
+
+namespace Moq
+
+/-- C16, header clause, for all data: whatever the regenerated template prints begins with the
+    generated-code marker, then the package clause, then the import block in the order of
+    `Data.imports` – before any declaration -/
+theorem bridge_header (d : Data) (t : Str) (h : renderNoop d = some t) :
+    ∃ rest, t = s%"// Code generated by moq; DO NOT EDIT.\n// github.com/matryer/moq\n\npackage " ++ d.pkgName ++
+      s%"\n\nimport (" ++ (d.imports.map fun i => s%"\n\t" ++ importStatement i).flatten ++ s%"\n)\n\n" ++ rest := by
+  have hok := renderNoop_some_argsOK d t h
+  rw [renderNoop_ok d hok] at h
+  refine ⟨(d.mocks.map (mockText d)).flatten, ?_⟩
+  rw [← Option.some.inj h]
+  unfold fileText
+  simp [List.append_assoc]
+
+end Moq
